@@ -14,7 +14,7 @@ D-f  nothing observed is omitted on the way out: the buffered ShExC writer deliv
      exactly once whatever the size of the document (R-PROTO, sa.rules.writer).
 Undecided: key preservation by the merge itself (value level, see C02)."""
 from ..report import Ob, Floor
-from ..rules import writer, threshold, twin, direction, count
+from ..rules import writer, threshold, twin, direction, count, mergetable
 from ..abseval import Evaluator
 from .. import exceptions
 
@@ -69,6 +69,7 @@ def check(ctx, tier):
     obs += ctx.attempt(lambda c, cl: writer.protocol(c, cl)[0], ctx, "D-f", default=[])
     obs += ctx.attempt(lambda c, cl: direction.explicit_direction(c, cl)[0], ctx, "D-g", default=[])
     obs += ctx.attempt(lambda c, cl: count.class_iteration_agreement(c, cl)[0], ctx, "D-h", default=[])
+    obs += ctx.attempt(lambda c, cl: mergetable.invariants(c, cl, which=('one-per-key', 'figures'))[0], ctx, "D-i", default=[])
     exceptions.apply(obs)
     floors = [Floor("threshold filter comparisons", len(tf.filters), 3), Floor("range-check comparisons", len(tf.range_checks), 2),
               Floor("functions that see the threshold", len(tf.tainted_funcs), 8), Floor("candidate construction sites", n_sites, 3)]
